@@ -59,6 +59,7 @@ def cases(tier):
         if d == 1 or (tuple(s["shape"]) in ((2, 3), (3, 2), (2, 3, 2), (1, 2, 3)) and
                       (tier == "thorough" or s["org"] == 1)):
             out.append({"grid": s, "part": "tvdref"})
+            out.append({"grid": s, "part": "tvddir"})
     return out
 
 
@@ -301,7 +302,7 @@ def _tvd01_part(g, res):
                 _report(findings, "tvd_FL1", g, ax, idx, af, bf, {"u_sign": s})
 
 
-def psi_ref(g, full, uarrs, FL):
+def psi_ref(g, full, uarrs, FL, darrs=None):
     """Loop-based reference face correction psi (arrays per axis): the standard TVD
     reconstruction phi_f = phi_U + 0.5*psi(r)*(phi_D-phi_U), r = (grad upstream)/(grad across),
     zero on the boundary face where the upstream cell does not exist; psi = 0 when
@@ -315,7 +316,7 @@ def psi_ref(g, full, uarrs, FL):
         N = g.dims[ax]
         psi = np.zeros(g.face_shapes[ax])
         for idx in np.ndindex(*g.face_shapes[ax]):
-            uf = uarrs[ax][idx]
+            uf = (darrs if darrs is not None else uarrs)[ax][idx]      # upwind direction
             if uf == 0.0:
                 continue
             k = idx[ax]                      # face between ghost-inclusive cells k and k+1
@@ -383,8 +384,46 @@ def _tvdref_part(g, res):
 def weight(case):
     sh = case["grid"]["shape"]
     n = int(np.prod([k + 2 for k in sh]))
-    w = {"diff": 1, "conv": 1, "upw": 4, "upwdir": 1, "tvd01": 3, "tvdref": 6}[case["part"]]
+    w = {"diff": 1, "conv": 1, "upw": 4, "upwdir": 1, "tvd01": 3, "tvdref": 6, "tvddir": 6}[case["part"]]
     return n * n * len(sh) * w
+
+
+def _tvddir_part(g, res):
+    """TVD correction with an explicit upwind-direction field (4th argument), direction != sign(u)."""
+    findings = res["findings"]
+    rows = np.flatnonzero(g.imask)
+    fields = _lifted_fields(g)
+    u = U.generic_face(g.mesh, tag=13, signed=True)
+    uarr = g.face_arrays(u)
+    reported = set()
+    for lname in (['Koren', 'VanLeer', 'SUPERBEE'] if g.d == 1 else ['Koren']):
+        FL = pf.fluxLimiter(lname)
+        pats = _dir_patterns(g)
+        if g.d == 1:
+            pats = pats[::max(1, len(pats) // 6)]
+        for pi, darr in enumerate(pats):
+            uup = U.face_from_arrays(g.mesh, darr)
+            for fld in fields:
+                res["evals"] += 1
+                rhs = np.asarray(pf.convectionTVDupwindRHSTerm(u, g.cell(fld), FL, uup), dtype=float)
+                psi = psi_ref(g, fld, uarr, FL, darr)
+                if not all(np.all(np.isfinite(p)) for p in psi):
+                    continue
+                ref = -_div(g, u * U.face_from_arrays(g.mesh, psi))
+                a, b = rhs[rows], ref[rows]
+                if np.any(a != 0) or np.any(b != 0):
+                    res["nontrivial"] += 1
+                bad = cmp_tol(a, b, rel=1e-11)
+                if bad.any():
+                    k = "C05:tvd_dir:%s" % g.cls
+                    if k in reported:
+                        continue
+                    reported.add(k)
+                    i = int(rows[np.flatnonzero(bad)[0]])
+                    findings.append({"key": k,
+                                     "msg": "TVD correction (%s) with explicit upwind direction (pattern %d) on %s is %.6g, reference -div(u*psi) with that direction is %.6g at cell %s"
+                                            % (lname, pi, U.spec_id(g.spec), rhs[i], ref[i], list(g.cell_of_flat(i))),
+                                     "detail": {"grid": U.spec_id(g.spec), "limiter": lname, "pattern": pi, "field": fld.tolist()}})
 
 
 def run_case(case):
@@ -401,6 +440,8 @@ def run_case(case):
         _tvd01_part(g, res)
     elif part == "tvdref":
         _tvdref_part(g, res)
+    elif part == "tvddir":
+        _tvddir_part(g, res)
     res["outcomes"] = {"%s:%s" % (part, "ok" if not res["findings"] else "viol"): 1}
     res["sample"] = {"grid": U.spec_id(g.spec), "part": part, "faces": len(g.faces), "cells_incl_ghosts": g.n}
     return res
